@@ -58,8 +58,8 @@ def run(ctx):
     # subgroup-checking point decoders - an unchecked decoder would let a proof shifted by a small-order point parse
     from . import posctl as PC
 
-    bad = [(f, bb, p) for f, bb, p in PC.unchecked_calls(P) if _concerns(P, f, ("ProofOfPossession", "PublicKey", "BlsSerde", "serialize_g", "deserialize_g"))]
-    ctx.ob("E7.unchecked", "proof-of-possession / public-key decoders", not bad, "unchecked point decoders on the way of a proof of possession or public key: %s" % [(f.key, p) for f, bb, p in bad][:4], where=where(bad[0][0], bad[0][1]) if bad else None)
+    bad = [(f, bb, p) for f, bb, p in PC.unchecked_calls(P) if _concerns(P, f, ("ProofOfPossession", "deserialize_signature", "serialize_signature"))]
+    ctx.ob("E7.unchecked", "proof-of-possession decoders", not bad, "unchecked point decoders on the way of a proof of possession: %s" % [(f.key, p) for f, bb, p in bad][:4], where=where(bad[0][0], bad[0][1]) if bad else None)
     PC.run_posctl(ctx, "E7.unchecked", "unchecked")
 
 
